@@ -21,7 +21,7 @@
 // Three evaluation modes of the four AES instructions (selected at run time by the harness; natively, i.e. in the replay
 // of a solver counterexample, always CONCRETE):
 //   CONCRETE  the FIPS-197 functions of the oracle (leaf lemmas, C17, KAT);
-//   UF        (default under Kani) uninterpreted 128-bit functions by Ackermann's reduction, shared with the oracle
+//   UF        (default under Kani) uninterpreted 128-bit functions (back-end function symbols, cuf.rs), shared with the oracle
 //             through the `o_*` adapters below (W queries: C02, C03, C12);
 //   TAGGED    (C04 batches) every call is given a tag (round, block) computed from its position in the call sequence
 //             that the harness announced (`tag::begin_pass`), and its result is constrained ONLY against the first
@@ -34,8 +34,8 @@
 #![allow(non_camel_case_types, missing_docs, dead_code, unused, unsafe_op_in_unsafe_fn, unreachable_pub, clippy::all)]
 
 #[macro_use]
-#[path = "/verif/harness/common/uf.rs"]
-mod uf;
+#[path = "/verif/harness/common/cuf.rs"]
+mod cuf;
 
 use refmodels::aes as ra;
 
@@ -57,12 +57,14 @@ pub fn c_imc(x: u128) -> u128 {
     lift(ra::inv_mix_columns, x)
 }
 
-// capacity = both sides of a query together (implementation + oracle)
-uf1!(uf_srsb, u128, u128, [B0 B1], c_srsb);
-uf1!(uf_isrsb, u128, u128, [B0 B1], c_isrsb);
-uf1!(uf_mc, u128, u128, [B0 B1], c_mc);
-uf1!(uf_imc, u128, u128, [B0 B1 B2], c_imc);
-uf1!(uf_sb, u8, u8, [B0 B1 B2 B3 B4 B5], ra::sbox);
+// back-end uninterpreted functions (harness/common/cuf.rs).  This file is not a harness file: lib/bcv/shadow.py finds these
+// invocations (to generate the C wrappers) through the never-compiled `#[cfg(any())] #[path = ".../arm_model.rs"] mod`
+// line that every ARM harness file carries.
+cuf1!(uf_srsb, vuf_arm_srsb, u128, u128, c_srsb);
+cuf1!(uf_isrsb, vuf_arm_isrsb, u128, u128, c_isrsb);
+cuf1!(uf_mc, vuf_arm_mc, u128, u128, c_mc);
+cuf1!(uf_imc, vuf_arm_imc, u128, u128, c_imc);
+cuf1!(uf_sb, vuf_arm_sb, u8, u8, ra::sbox);
 
 // ---- mode switches
 #[cfg(kani)]
